@@ -863,7 +863,7 @@ func c14CoWrite(c *an.Check, root, data *types.Named) {
 		fn := a.At.Parent()
 		cons := w.FuncName(fn) + " writes " + what
 		for _, b := range others {
-			if b.At.Parent() != fn || b.Val != a.Val {
+			if b.At.Parent() != fn || !c14SameValue(a.Val, b.Val) {
 				continue
 			}
 			var ma, mb ssa.Value
@@ -1104,4 +1104,18 @@ func c14LeafNames(ls []an.Src) []string {
 		m[l.String()] = true
 	}
 	return sortedKeys(m)
+}
+
+// c14SameValue: identical SSA value, or two constants with the same value
+// (each use of a named constant is its own *ssa.Const).
+func c14SameValue(a, b ssa.Value) bool {
+	if a == b {
+		return true
+	}
+	if sa, ok := an.ConstString(a); ok {
+		if sb, ok := an.ConstString(b); ok {
+			return sa == sb
+		}
+	}
+	return false
 }
